@@ -107,7 +107,7 @@ def gen_requests(tier, seed, focus=None, round_no=0):
     reqs = [l.rstrip("\n") for l in open(path, encoding="utf-8", errors="surrogateescape")]
     os.unlink(path)
     # malformed stream (grammar-directed mutations of the valid strings) + the extras above
-    nmal = 1000 if tier == "quick" else 6000
+    nmal = 700 if tier == "quick" else 6000
     mpath = os.path.join(vlib.WORK, f"c08_mal_{tier}_{seed}_{round_no}.raw")
     r = vlib.harness(["malformed-gen", str(nmal), mpath], seed=seed * 1000 + round_no)
     if r.returncode != 0:
@@ -120,7 +120,7 @@ def gen_requests(tier, seed, focus=None, round_no=0):
         elif l.startswith("mhall"):
             mal.append("wmhall" + l[5:])
     os.unlink(mpath)
-    mal += extra_malformed(seed * 1000 + round_no, 800 if tier == "quick" else 4000)
+    mal += extra_malformed(seed * 1000 + round_no, 500 if tier == "quick" else 4000)
     if focus and ("whall" in focus or "wmhall" in focus):
         mal += extra_malformed(seed * 1000 + round_no + 500, 3000)
     return reqs + mal
@@ -458,7 +458,12 @@ def run(tier, seed):
         return run.finish()
     okt, terr = vlib.translate()
     inv = run_inventory()
-    ob = vlib.proof_obligations(PROPS)
+    # the two theorem modules are audited separately: an undischarged panic site must not hide the C08 theorems
+    ob = {"obligations": 0, "discharged": 0, "failures": [], "names": []}
+    for pm in PROPS:
+        o = vlib.proof_obligations([pm])
+        for k in ob:
+            ob[k] += o[k]
     okm, mout = vlib.lake_build(["moyo_model"])
     if not okt:
         ob["failures"].append("translator (constants) failed: " + terr[-1500:])
@@ -563,7 +568,7 @@ def run(tier, seed):
         elif h2.startswith("HANG") or h2.startswith("CRASH"):
             ent = entry_of(q)
             if ent not in frames:
-                frames[ent] = moyo_frame(q)
+                frames[ent] = moyo_frame(q, samples=1 if tier == "quick" else 2)
             fr = frames[ent]
             key = f"unbounded:{fr}" if fr else f"unbounded:{ent}:?"
         else:
@@ -604,9 +609,14 @@ def run(tier, seed):
             k, _, sym = q.partition(" ")
             mreqs.append(("hall " if k == "whall" else "mhall ") + sym if sym else ("hall" if k == "whall" else "mhall"))
         mans = vlib.run_model(mreqs)
+        lenient = []
         for i, ma in zip(hall_idx, mans):
             ih = head_of(all_ans[i]).split(" ")[0]
             s11[("model-none" if ma == "none" else "model-some" if " ; " in ma else "model-" + ma[:12]) + "/impl-" + ih.lower()] += 1
+            if ma == "none" and ih == "some" and len(lenient) < 12:
+                lenient.append(all_reqs[i])
+        # not a C08 matter (no panic, no stall): strings the implementation accepts although the model of the grammar rejects them
+        cov["S11_model_none_impl_some_samples"] = lenient
     cov["S11_malformed"] = {k: v for k, v in sorted(s11.items())}
     log(f"[c08] S11 done at {time.time() - t_start:.1f}s")
 
@@ -674,12 +684,12 @@ def run(tier, seed):
         if unmatched:
             lines.append("panic sites without a discharge record (Moyo/Model/C08Discharge.lean; file|fn|kind|line|expression):")
             lines += ["  " + u for u in unmatched[:40]]
-            # a failing input located in one of these functions?
+            # a failing input located in one of these functions (then it is one of the listed known findings)?
             fns = {(u.split("|")[0], u.split("|")[1]) for u in unmatched}
             for q, a in failing:
                 if head_of(a).startswith("PANIC"):
                     _, loc = panic_key(q, a)
-                    if loc and (loc[0], fn_at(loc[0], loc[1]) if "/" in loc[0] or loc[0].endswith(".rs") else None) in fns:
+                    if loc and not loc[0].startswith("/") and (loc[0], fn_at(loc[0], loc[1])) in fns:
                         found_for_site = (q, a)
                         break
             lines.append(f"focused exploration ({focus}) over {len(all_reqs)} requests: " +
